@@ -346,7 +346,8 @@ def plan(run):
     # 1. unmerged: all histories up to depth k
     k = 3 if quick else 4
     cases = []
-    for evs, kk in ((EVENT_GROUPS[0], k), (EVENT_GROUPS[1], k), (EVENT_GROUPS[2], k + 1), (EVENT_GROUPS[3], k)):
+    # (depths per group follow the budget: the thorough tier of the three-pool version took 3490 of its 3600 s)
+    for evs, kk in ((EVENT_GROUPS[0], k), (EVENT_GROUPS[1], k), (EVENT_GROUPS[2], 4), (EVENT_GROUPS[3], 3)):
         for e1 in evs:
             for e2 in evs:
                 cases.append({"mode": "unmerged", "prefix": [list(e1), list(e2)], "depth": kk - 2})
